@@ -905,7 +905,7 @@ def fabricate_and_clean(case):
                 spec = ["build-empty"]
         else:
             spec = ["pkg", tag if rng.random() < 0.5 else other]
-        if rng.random() < 0.012 and kind != "src":       # state of the wrong kind stored for the path
+        if rng.random() < 0.035 and kind != "src":       # state of the wrong kind stored for the path
             spec = rng.choice([["pkg", other], ["build", other], ["src", other]])
         if spec is not None:
             bob.state.BobState().setDirectoryState(path, state_obj(spec))
